@@ -1637,7 +1637,13 @@ func (m *Mon) stepC16(sc *StepCtx, si stepInfo) {
 		if finished && still {
 			m.fail(sc, "C16", "finished-context-removed", kind+"/"+rc.State.String(), "context %.16s (%s, state %s, batch %d of total %d) survives the expiry block %d of its last batch", id, kind, rc.State, rc.BatchCounter, rc.RepeatedTotal, h)
 		}
-		if !finished && !still {
+		killedNow := false // killed by its owning module from inside a callback during this very block
+		for _, cb := range sc.Res.Callbacks {
+			if cb.React == "kill" && cb.ReactOK && cb.CtxID == id {
+				killedNow = true
+			}
+		}
+		if !finished && !still && !killedNow {
 			m.fail(sc, "C16", "unfinished-context-kept", rc.State.String(), "context %.16s (repeated, batch %d of total %d, state %s) was removed at block %d", id, rc.BatchCounter, rc.RepeatedTotal, rc.State, h)
 		}
 	}
@@ -1765,7 +1771,9 @@ func (m *Mon) stepRestart(sc *StepCtx, si stepInfo) {
 	for bk, b := range pre.Bindings {
 		pb, ok := post.Bindings[bk]
 		m.hit("C04", "no-failure-no-slash", "restart")
-		if ok && (!coinsAmt(pb.Deposit).Equal(coinsAmt(b.Deposit)) || pb.Available != b.Available || !pb.DisabledTime.Equal(b.DisabledTime)) {
+		if ok && (!coinsAmt(pb.Deposit).Equal(coinsAmt(b.Deposit)) || pb.Available != b.Available || (!b.Available && !pb.DisabledTime.Equal(b.DisabledTime))) {
+			// (the disabled time of an available binding has no meaning and the re-written genesis
+			// of a restart step deliberately changes it)
 			m.fail(sc, "C04", "no-failure-no-slash", "restart", "binding %q went from deposit %s available=%v to deposit %s available=%v across a zero-height restart although no request failed", bk, coinsAmt(b.Deposit), b.Available, coinsAmt(pb.Deposit), pb.Available)
 		}
 	}
